@@ -129,6 +129,9 @@ enum Action {
 
 #[derive(Clone, Debug)]
 struct Case {
+    /// the frame position `t` is reached by a host snapshot load (an SZX whose dwCyclesStart is `t`) on a machine
+    /// that stood in the lower border and had just made a contended access there — not by time passing
+    szx: bool,
     m128: bool,
     /// a host I/O extender claiming every port with A1=1 (never the paging latch) is attached (a port cycle lasts the same)
     ext: bool,
@@ -139,7 +142,7 @@ struct Case {
 
 impl Case {
     fn text(&self) -> String {
-        let head = format!("{}{} {:02x} {}", if self.m128 { 128 } else { 48 }, if self.ext { "x" } else { "" }, self.latch, self.t);
+        let head = format!("{}{}{} {:02x} {}", if self.m128 { 128 } else { 48 }, if self.ext { "x" } else { "" }, if self.szx { "z" } else { "" }, self.latch, self.t);
         match &self.act {
             Action::Mreq(a, k) => format!("{} mreq {:04x} {}", head, a, k),
             Action::Port(p, w) => format!("{} port {:04x} {}", head, p, *w as u8),
@@ -152,8 +155,9 @@ impl Case {
     fn parse(s: &str) -> Option<Case> {
         let t: Vec<&str> = s.split_whitespace().collect();
         let h = |x: &str| u16::from_str_radix(x, 16).ok();
-        let ext = t.first()?.ends_with('x');
-        let m128 = t.first()?.trim_end_matches('x') == "128";
+        let szx = t.first()?.contains('z');
+        let ext = t.first()?.contains('x');
+        let m128 = t.first()?.trim_end_matches(|c| c == 'x' || c == 'z') == "128";
         let latch = h(t.get(1)?)? as u8;
         let tt: usize = t.get(2)?.parse().ok()?;
         let act = match *t.get(3)? {
@@ -168,7 +172,7 @@ impl Case {
             ),
             _ => return None,
         };
-        Some(Case { m128, ext, latch, t: tt, act })
+        Some(Case { szx, m128, ext, latch, t: tt, act })
     }
 }
 
@@ -202,6 +206,33 @@ impl Rig {
         self.e.verif_set_frame_clocks(t);
     }
 
+    /// reaches frame position `c.t` the way the case says
+    fn goto_case(&mut self, c: &Case) {
+        if !c.szx {
+            self.goto(c.t);
+            return;
+        }
+        let l = frame_len(self.m128);
+        self.goto(l - 3000);
+        let _ = self.e.verif_read_mem(0x4000, 3);
+        let _ = self.e.verif_read_io(0x40FE);
+        let mut f = b"ZXST".to_vec();
+        f.extend_from_slice(&[1, 4, if self.m128 { 2 } else { 1 }, 0]);
+        f.extend_from_slice(b"SPCR");
+        f.extend_from_slice(&8u32.to_le_bytes());
+        f.extend_from_slice(&[0, self.latch & 0x1F, 0, 0, 0, 0, 0, 0]);
+        f.extend_from_slice(b"Z80R");
+        f.extend_from_slice(&37u32.to_le_bytes());
+        let mut z = [0u8; 37];
+        z[29..33].copy_from_slice(&(c.t as u32).to_le_bytes());
+        f.extend_from_slice(&z);
+        let _ = self.e.load_snapshot(rustzx_core::host::Snapshot::Szx(VAsset::new(f)));
+        if self.e.verif_frame_clocks() != c.t {
+            // the loader did not put the clock where the file says (C14's matter): fall back to the plain way
+            self.goto(c.t);
+        }
+    }
+
     fn set_latch(&mut self, latch: u8) {
         if self.m128 && self.latch != latch {
             self.e.verif_write_io(0x7FFD, latch & 0x1F);
@@ -215,14 +246,14 @@ impl Rig {
         self.set_latch(c.latch);
         match &c.act {
             Action::Mreq(a, k) => {
-                self.goto(c.t);
+                self.goto_case(c);
                 let f0 = self.e.verif_frames_count();
                 let _ = self.e.verif_read_mem(*a, *k);
                 let el = (self.e.verif_frames_count() - f0) * l + self.e.verif_frame_clocks() - c.t;
                 (el, vec![BusOp::Mem(*a, *k)])
             }
             Action::Port(p, w) => {
-                self.goto(c.t);
+                self.goto_case(c);
                 let f0 = self.e.verif_frames_count();
                 if *w {
                     // data 0 to a port that is neither ULA-border-relevant nor paging is harmless; avoid the latch
@@ -599,7 +630,7 @@ interesting T-states, the bus-cycle trace taken from the real Z80 on a recording
         for pass in 0..8 {
             let mut t = pass;
             while t < frame_len(m128) {
-                check_case(&mut model, &mut rig, &Case { m128, ext: false, latch: 0, t, act: Action::Mreq(0x4000, 1) }, &mut rep, &mut batch);
+                check_case(&mut model, &mut rig, &Case { szx: false, m128, ext: false, latch: 0, t, act: Action::Mreq(0x4000, 1) }, &mut rep, &mut batch);
                 t += 8;
                 if batch.len() >= 4000 {
                     flush(&mut model, &mut rep, &mut batch);
@@ -613,7 +644,7 @@ interesting T-states, the bus-cycle trace taken from the real Z80 on a recording
             for pass in 0..32 {
                 let mut t = pass;
                 while t < frame_len(m128) {
-                    check_case(&mut model, &mut rig, &Case { m128, ext: false, latch: 0, t, act: Action::Port(port, w) }, &mut rep, &mut batch);
+                    check_case(&mut model, &mut rig, &Case { szx: false, m128, ext: false, latch: 0, t, act: Action::Port(port, w) }, &mut rep, &mut batch);
                     t += 32;
                     if batch.len() >= 4000 {
                         flush(&mut model, &mut rep, &mut batch);
@@ -623,6 +654,18 @@ interesting T-states, the bus-cycle trace taken from the real Z80 on a recording
             }
         }
         rep.count("cases", "port patterns, every T-state");
+    }
+    // (1b) the same cycles at frame positions reached by a host snapshot load from the lower border
+    for m128 in [false, true] {
+        let ts = interesting_ts(m128, o.thorough(), &mut rng);
+        let mut rig = Rig::new(m128, false);
+        for (n, t) in ts.iter().enumerate().filter(|(n, _)| n % (if o.thorough() { 1 } else { 3 }) == 0) {
+            let latch = if m128 { [0u8, 1, 7, 8 | 5][n % 4] } else { 0 };
+            let act = if n % 3 == 2 { Action::Port([0x40FEu16, 0x00FE, 0x7FFF][n % 3], n % 2 == 0) } else { Action::Mreq(ADDRS[n % ADDRS.len()], [1usize, 3, 4][n % 3]) };
+            check_case(&mut model, &mut rig, &Case { szx: true, m128, ext: false, latch, t: *t, act }, &mut rep, &mut batch);
+            rep.count("cases", "cycle at a frame position reached by an SZX load");
+        }
+        flush(&mut model, &mut rep, &mut batch);
     }
     for m128 in [false, true] {
         let ts = interesting_ts(m128, o.thorough(), &mut rng);
@@ -638,7 +681,7 @@ interesting T-states, the bus-cycle trace taken from the real Z80 on a recording
                     }
                     let a = ADDRS[(n / 4 + pass + latch as usize) % ADDRS.len()];
                     let clk = [1usize, 3, 4][(n + pass) % 3];
-                    check_case(&mut model, &mut rig, &Case { m128, ext: false, latch, t: *t, act: Action::Mreq(a, clk) }, &mut rep, &mut batch);
+                    check_case(&mut model, &mut rig, &Case { szx: false, m128, ext: false, latch, t: *t, act: Action::Mreq(a, clk) }, &mut rep, &mut batch);
                     rep.count("cases", "memory cycle");
                 }
                 flush(&mut model, &mut rep, &mut batch);
@@ -652,10 +695,10 @@ interesting T-states, the bus-cycle trace taken from the real Z80 on a recording
                     // avoid the paging latch on writes: ports with A1 set
                     let port = hi | [0x00FE, 0x00FF, 0x00F6, 0x0003][(n + pass) % 4];
                     let w = (n / 3) % 2 == 0;
-                    check_case(&mut model, &mut rig, &Case { m128, ext: false, latch, t: *t, act: Action::Port(port, w) }, &mut rep, &mut batch);
+                    check_case(&mut model, &mut rig, &Case { szx: false, m128, ext: false, latch, t: *t, act: Action::Port(port, w) }, &mut rep, &mut batch);
                     rep.count("cases", "port cycle");
                     // the same cycle with a host extender attached (which claims these ports)
-                    check_case(&mut model, &mut rigx, &Case { m128, ext: true, latch, t: *t, act: Action::Port(port, w) }, &mut rep, &mut batch);
+                    check_case(&mut model, &mut rigx, &Case { szx: false, m128, ext: true, latch, t: *t, act: Action::Port(port, w) }, &mut rep, &mut batch);
                     rep.count("cases", "port cycle, host extender attached");
                 }
                 flush(&mut model, &mut rep, &mut batch);
@@ -674,7 +717,7 @@ interesting T-states, the bus-cycle trace taken from the real Z80 on a recording
                 let regs = random_regs(&mut r);
                 let t = if k % 2 == 0 { *r.pick(&ts) } else { r.below(frame_len(m128) as u64) as usize };
                 let latch = if m128 { r.below(8) as u8 | (r.below(2) as u8) << 4 } else { 0 };
-                cases.push(Case { m128, ext: k % 4 == 3, latch, t, act: Action::Instr(code.clone(), regs) });
+                cases.push(Case { szx: false, m128, ext: k % 4 == 3, latch, t, act: Action::Instr(code.clone(), regs) });
             }
         }
         // sort by latch then T so that neither the latch nor the clock thrash
